@@ -8,6 +8,7 @@ mod gen;
 mod mon;
 mod rng;
 mod sddhist;
+mod semi;
 mod tt;
 mod walk;
 
@@ -67,6 +68,7 @@ fn main() {
         distinct: HashSet::new(),
         samples: Vec::new(),
         violations: 0,
+        viol_by_sub: BTreeMap::new(),
         harness_errors: 0,
         cur_regime: String::new(),
         cur_case: 0,
